@@ -144,6 +144,73 @@ func (e *Engine) structural(spec string) (bool, string) {
 			return false, strings.Join(bad, "\n")
 		}
 		return true, fmt.Sprintf("%d call sites, all inside the allowed functions", n)
+	case "global-map-const-true":
+		// global-map-const-true|<pkg name>|<global>: the map is only written by the package initialiser, with value `true`
+		if len(parts) != 3 {
+			return false, "bad spec"
+		}
+		var bad []string
+		n := 0
+		for key, fn := range e.funcs {
+			pk := fnPackage(fn)
+			if pk == nil || pk.Name() != parts[1] || fn.Blocks == nil {
+				continue
+			}
+			isInit := fn.Name() == "init" || strings.HasPrefix(fn.Name(), "init#")
+			fromGlobal := func(v ssa.Value) bool {
+				u, ok := v.(*ssa.UnOp)
+				if !ok {
+					return false
+				}
+				g, ok := u.X.(*ssa.Global)
+				return ok && g.Name() == parts[2]
+			}
+			for _, b := range fn.Blocks {
+				for _, ins := range b.Instrs {
+					switch x := ins.(type) {
+					case *ssa.Store:
+						if g, ok := x.Addr.(*ssa.Global); ok && g.Name() == parts[2] {
+							if !isInit {
+								bad = append(bad, key+" reassigns "+parts[2])
+							}
+						}
+					case *ssa.MapUpdate:
+						isTarget := fromGlobal(x.Map)
+						if mm, ok := x.Map.(*ssa.MakeMap); ok && isInit {
+							// the literal being built in init: stored to the global afterwards
+							for _, r := range *mm.Referrers() {
+								if st, ok := r.(*ssa.Store); ok {
+									if g, ok := st.Addr.(*ssa.Global); ok && g.Name() == parts[2] {
+										isTarget = true
+									}
+								}
+							}
+						}
+						if !isTarget {
+							continue
+						}
+						n++
+						c, ok := x.Value.(*ssa.Const)
+						if !isInit {
+							bad = append(bad, key+" writes "+parts[2])
+						} else if !ok || c.Value == nil || c.Value.String() != "true" {
+							bad = append(bad, "init stores a non-true value in "+parts[2])
+						}
+					case *ssa.Call:
+						if bi, ok := x.Call.Value.(*ssa.Builtin); ok && (bi.Name() == "delete" || bi.Name() == "clear") && len(x.Call.Args) > 0 && fromGlobal(x.Call.Args[0]) {
+							bad = append(bad, key+" deletes from "+parts[2])
+						}
+					}
+				}
+			}
+		}
+		if len(bad) > 0 {
+			return false, strings.Join(bad, "\n")
+		}
+		if n == 0 {
+			return false, "no initialiser entries found for " + parts[2]
+		}
+		return true, fmt.Sprintf("%d initialiser entries, all true", n)
 	case "under-contract":
 		for _, k := range strings.Split(parts[1], ",") {
 			k = strings.TrimSpace(k)
